@@ -581,6 +581,7 @@ func c01R6(c *Ctx, rule string) {
 
 func runC08(c *Ctx) {
 	c08ErrorBody(c)
+	c08NodeDial(c)
 	errDiscipline(c, "C08.R5", pkgFuncs(c.P, "server/proxy"), 3)
 	c08Director(c, "C08.R1")
 	c08R2(c)
@@ -1266,4 +1267,49 @@ func c01HostSelection(c *Ctx) {
 		}
 	})
 	c.check(bad == "" && n > 0, "C01.R8", fnName(fn)+"/host-selection", split.Pos(), "split host when a port is present, the Host header otherwise", "the host the endpoint id is taken from is selected the wrong way round: "+bad+" (requests whose Host header has no port - or has one - are answered 400 although their endpoint is served)")
+}
+
+// c08NodeDial (C08.R6): the TLS leg to another node is established with an API
+// that derives the server name from the dial address (tls.Dial, DialWithDialer,
+// (*tls.Dialer).DialContext), or - if tls.Client is used on a raw connection -
+// with a configuration whose ServerName is set on every path. tls.Client leaves
+// ServerName empty, the handshake fails verification, and every forwarded
+// request answers 502 although the upstream is healthy.
+func c08NodeDial(c *Ctx) {
+	p := c.P
+	n := 0
+	for _, fn := range pkgFuncs(p, "server/upstream", "server/proxy") {
+		allInstrs(fn, func(i ssa.Instruction) {
+			cl, ok := i.(*ssa.Call)
+			if !ok {
+				return
+			}
+			name := commonName(&cl.Call)
+			switch name {
+			case "crypto/tls.Dial", "crypto/tls.DialWithDialer", "(*crypto/tls.Dialer).DialContext", "(*crypto/tls.Dialer).Dial":
+				n++
+				c.ok("C08.R6", fnName(fn)+"/tls-dial", cl.Pos(), "server name derived from the dial address")
+			case "crypto/tls.Client":
+				n++
+				// the config argument must have had ServerName stored on it in this function
+				named := false
+				cfg := strip(cl.Call.Args[1])
+				allInstrs(fn, func(j ssa.Instruction) {
+					st, ok := j.(*ssa.Store)
+					if !ok {
+						return
+					}
+					if fa, ok := st.Addr.(*ssa.FieldAddr); ok {
+						if fv, _ := fieldVarOf(fa); fv != nil && fv.Name() == "ServerName" && strip(fa.X) == cfg && dominatesInstr(st, cl) {
+							named = true
+						}
+					}
+				})
+				c.check(named, "C08.R6", fnName(fn)+"/tls-client-server-name", cl.Pos(), "ServerName set on the configuration before tls.Client", "tls.Client is used on a raw connection with a configuration whose ServerName is not set here: unlike tls.Dial it does not derive the name from the address, so certificate verification fails and forwarded requests answer 502")
+			}
+		})
+	}
+	if n == 0 {
+		c.fail("C08.R6", "node-dial", token.NoPos, "no TLS dial to another node found")
+	}
 }
